@@ -64,10 +64,12 @@ func vecKinds(w *World) ([]*vecKind, error) {
 		if k.Execute == nil || k.Add == nil || k.Remove == nil || k.Flush == nil {
 			return nil, fmt.Errorf("%s: Execute/Add/Remove/Flush missing", k.IndexName)
 		}
-		// helpers called by Execute: methods of the same search type
-		for _, call := range callsIn(k.Execute, func(c *ssa.CallCommon) bool { return staticCallee(c) != nil }) {
-			f := staticCallee(call.Common())
-			if f.Signature.Recv() == nil || !types.Identical(f.Signature.Recv().Type(), k.SearchT) {
+		// helpers below Execute (methods of the same search type, found through same-type callees to depth 3): the per-query
+		// routine returns ([]VectorResult, error), the node lookup ([][]float32, error). When a wrapper with the same result
+		// type was extracted (collectQueries → lookupNodeVectors) the innermost candidate is the role holder.
+		var singles, lookups []*ssa.Function
+		for _, f := range sameRecvCallees(w, k.Execute, 3) {
+			if f == k.Execute {
 				continue
 			}
 			res := f.Signature.Results()
@@ -76,11 +78,31 @@ func vecKinds(w *World) ([]*vecKind, error) {
 			}
 			switch types.TypeString(res.At(0).Type(), qual) {
 			case "[]VectorResult":
-				k.Single = f
+				singles = append(singles, f)
 			case "[][]float32":
-				k.Lookup = f
+				lookups = append(lookups, f)
 			}
 		}
+		innermost := func(cands []*ssa.Function) *ssa.Function {
+			for _, f := range cands {
+				callsOther := false
+				for _, g := range sameRecvCallees(w, f, 3) {
+					if g == f {
+						continue
+					}
+					for _, o := range cands {
+						if o == g {
+							callsOther = true
+						}
+					}
+				}
+				if !callsOther {
+					return f
+				}
+			}
+			return nil
+		}
+		k.Single, k.Lookup = innermost(singles), innermost(lookups)
 		if k.Single == nil || k.Lookup == nil {
 			return nil, fmt.Errorf("%s: per-query search / node lookup helpers not found below Execute", k.SearchName)
 		}
